@@ -492,7 +492,12 @@ class SplitVal(SVal):
                 c._last = self._orig_last(cx)
                 c.popped = True
                 return c
-            raise Unsupported("another slice of a split list than [:-1]")
+            if idx.lo == 1 and idx.hi is None and idx.step is None:  # segs[1:]: all parts but the first (only to be joined again)
+                self._plain("slicing")
+                if self.last_new is not None:
+                    raise Unsupported("slicing of a split list after item assignment")
+                return SplitTail(self)
+            raise Unsupported("another slice of a split list than [:-1] / [1:]")
         self._plain("subscription")
         s, sep, L = self.s, self.sep, self.L
         n = z3.Length(s)
@@ -512,6 +517,21 @@ class SplitVal(SVal):
             st = self.i2 + L
             return SStr(z3.If(self.i3 < 0, z3.SubString(s, st, n - st), z3.SubString(s, st, self.i3 - st)))
         raise Unsupported("str.split(...)[i] for i > 2")
+
+
+class SplitTail(SVal):
+    """s.split(sep)[1:]: joined by the same separator it is what follows the first separator (nothing if there is none)"""
+
+    def __init__(self, sv):
+        self.sv = sv
+
+    def py_joined_by(self, cx, sep):
+        v = self.sv
+        sepv = z3.simplify(v.sep)
+        if not (isinstance(sep, str) and z3.is_string_value(sepv) and sepv.as_string() == sep):
+            raise Unsupported("join of a split list by another separator")
+        n, st = z3.Length(v.s), v.i1 + v.L
+        return SStr(z3.If(v.i1 < 0, z3.StringVal(""), z3.SubString(v.s, st, n - st)))
 
 
 class SliceVal:
@@ -643,6 +663,9 @@ class SMaybe(SVal):
 
     def py_getitem(self, cx, idx):
         return v_getitem(cx, self.force(cx, "TypeError"), idx)
+
+    def py_contains(self, cx, item):
+        return v_contains(cx, self.force(cx, "TypeError"), item)  # `x in None` is a TypeError
 
     def py_hash(self, cx):
         v = self.resolve(cx)
